@@ -452,5 +452,5 @@ package channels
 //@     !isFinal(s.Status) && isFinal(step(s, E).Status) ==> E == CleanupComplete && isCleanup(s.Status)
 //@ lemma [entering-cleanup-runs-entry] {C09}: foreach E in (*) :: forall s State ::
 //@     applied(s, E) && !isCleanup(s.Status) && isCleanup(step(s, E).Status) ==> entryRuns(s, E)
-//@ lemma [once-per-entry] {C09}: foreach E in (*) except (CompleteCleanupOnRestart) :: forall s State ::
-//@     isCleanup(s.Status) && step(s, E).Status == s.Status ==> !entryRuns(s, E)
+//@ lemma [once-per-entry] {C09}: foreach E in (*) except (CompleteCleanupOnRestart) :: foreach S in statuses(Cancelling, Failing, Completing) ::
+//@     forall s State :: s.Status == S && step(s, E).Status == s.Status ==> !entryRuns(s, E)
